@@ -596,174 +596,9 @@ func checkC17(c *Ctx) {
 	c.Rule("C17.R2", "every strconv float formatting in the package uses precision -1, bit size 64 and a format in {e,E,f,g,G} (shortest text that parses back to the same float64)")
 	c.Rule("C17.R4", "the text Encode returns is freshly allocated in the call (no package-level buffer, no sync.Pool object), so a text the caller keeps is not overwritten by a later Encode")
 	c.Rule("C17.R3", "exactly Point, LineString, MultiLineString, Polygon and MultiPolygon are encoded; every other type reaches the error return")
-	p := c.P.Pkg("encoding/wkt")
-	enc := c.P.Func("encoding/wkt", "Encode")
-	if p == nil || c.P.Decl(enc) == nil {
-		c.Unk("C17.R1", "encoding/wkt.Encode", token.NoPos, "API anchor does not resolve")
-		return
-	}
-	info := p.TypesInfo
-	fd := c.P.Decl(enc)
-	param := paramVars(info, fd.Type)[0]
-	// locate the type switch
-	var sw *ast.TypeSwitchStmt
-	for _, st := range fd.Body.List {
-		if s, ok := st.(*ast.TypeSwitchStmt); ok {
-			sw = s
-		}
-	}
-	if sw == nil {
-		c.Unk("C17.R3", "encoding/wkt.Encode", fd.Pos(), "type switch on the geometry not found")
-		return
-	}
-	op, cls := typeSwitch(info, sw)
-	if op == nil || objOf(info, op) != param {
-		c.Unk("C17.R3", "encoding/wkt.Encode", fd.Pos(), "type switch is not on the geometry argument")
-		return
-	}
-	supported := map[string]*tsClause{}
-	defaultErr := false
-	for i := range cls {
-		cl := &cls[i]
-		if cl.Default {
-			for _, s := range cl.Clause.Body {
-				if r, ok := s.(*ast.ReturnStmt); ok && len(r.Results) == 2 && isNilConst(info, r.Results[0]) && !isNilConst(info, r.Results[1]) {
-					defaultErr = true
-				}
-			}
-			continue
-		}
-		for _, t := range cl.Types {
-			if t == nil {
-				continue
-			}
-			tn := geomTypeName(t)
-			if p, ok := t.(*types.Pointer); ok {
-				tn = "*" + geomTypeName(p.Elem())
-			}
-			supported[tn] = cl
-		}
-	}
-	for tn := range wktKeyword {
-		cons := "encoding/wkt.Encode#case(" + tn + ")"
-		if supported[tn] != nil {
-			c.OK("C17.R3", cons, supported[tn].Clause.Pos(), "encoded")
-		} else {
-			c.Bad("C17.R3", cons, sw.Pos(), "geom.%s is not encoded", tn)
-		}
-	}
-	for tn, cl := range supported {
-		if _, ok := wktKeyword[tn]; !ok {
-			c.Bad("C17.R3", "encoding/wkt.Encode#case("+tn+")", cl.Clause.Pos(), "%s is encoded although the encoder has no grammar production verified for it", tn)
-		}
-	}
-	if defaultErr {
-		c.OK("C17.R3", "encoding/wkt.Encode#default", sw.Pos(), "other types return an error")
-	} else {
-		c.Bad("C17.R3", "encoding/wkt.Encode#default", sw.Pos(), "unsupported types do not reach an error return")
-	}
-	// R1: per type, per count combination
-	for tn, kw := range wktKeyword {
-		_ = kw
-		cl := supported[tn]
-		if cl == nil {
-			continue
-		}
-		cons := "encoding/wkt.Encode#text(" + tn + ")"
-		depth := wktDepth[tn]
-		var combos [][]int
-		var gen func(cur []int)
-		gen = func(cur []int) {
-			if len(cur) == depth {
-				combos = append(combos, append([]int(nil), cur...))
-				return
-			}
-			for n := 1; n <= 3; n++ {
-				gen(append(cur, n))
-			}
-		}
-		gen(nil)
-		bad := ""
-		for _, counts := range combos {
-			it := &wktInterp{c: c, info: info, counts: counts}
-			fr := &wframe{it: it, vars: map[types.Object]interface{}{param: wref{path: "", depth: 0}}}
-			if cl.Bound != nil {
-				fr.vars[cl.Bound] = wref{path: "", depth: 0}
-			}
-			// the clause body: locals bound to g.(T), then `return appender(nil, x), nil`
-			var toks []wtok
-			done := false
-			for _, st := range cl.Clause.Body {
-				if r, ok := st.(*ast.ReturnStmt); ok {
-					if len(r.Results) == 2 {
-						b, ok := fr.buf(r.Results[0], 0)
-						if !ok && it.undec == "" {
-							it.fail("returned value `%s` is not an appender call", src(r.Results[0]))
-						}
-						toks, done = b, true
-					}
-					break
-				}
-				fr.stmt(st, 0)
-			}
-			c.Evals(1)
-			if it.undec != "" || !done {
-				if it.undec == "" {
-					it.undec = "clause does not return the encoded text"
-				}
-				c.Unk("C17.R1", cons, cl.Clause.Pos(), "%s", it.undec)
-				bad = "undecided"
-				break
-			}
-			if msg := parseWKT(tn, toks, counts); msg != "" {
-				c.Bad("C17.R1", cons, cl.Clause.Pos(), "with member counts %v the encoder emits `%s`, which is not well-formed OGC WKT for the geometry: %s", counts, renderToks(toks), msg)
-				bad = msg
-				break
-			}
-		}
-		if bad == "" {
-			c.OK("C17.R1", cons, cl.Clause.Pos(), "%d count combinations (1..3 per level) all parse, coordinates complete and in order", len(combos))
-		}
-	}
-	// R2
-	n := 0
-	for _, f := range p.Syntax {
-		ast.Inspect(f, func(nd ast.Node) bool {
-			call, ok := nd.(*ast.CallExpr)
-			if !ok {
-				return true
-			}
-			fn := callee(info, call)
-			if !isFuncIn(fn, "strconv", "AppendFloat") && !isFuncIn(fn, "strconv", "FormatFloat") {
-				return true
-			}
-			n++
-			off := 0
-			if fn.Name() == "AppendFloat" {
-				off = 1
-			}
-			encl := "?"
-			for _, rf := range c.P.RepoFuncs() {
-				if d := c.P.Decl(rf); d.Pos() <= call.Pos() && call.Pos() <= d.End() {
-					encl = c.P.FuncName(rf)
-				}
-			}
-			cons := fmt.Sprintf("%s#%s(%s)", encl, fn.Name(), src(call.Args[off]))
-			fmtc, ok1 := constInt(info, call.Args[off+1])
-			prec, ok2 := constInt(info, call.Args[off+2])
-			bits, ok3 := constInt(info, call.Args[off+3])
-			okFmt := ok1 && strings.ContainsRune("eEfgG", rune(fmtc))
-			if okFmt && ok2 && prec == -1 && ok3 && bits == 64 {
-				c.OK("C17.R2", cons, call.Pos(), "format %q, precision -1, 64 bits", rune(fmtc))
-			} else {
-				c.Bad("C17.R2", cons, call.Pos(), "`%s` does not produce the shortest text that parses back to the same float64 (need format in eEfgG, precision -1, bit size 64)", src(call))
-			}
-			return true
-		})
-	}
-	// any fmt-based float formatting would be outside the model
+	c17model(c)
 	c.Floor("C17.R1", 5)
-	c.Floor("C17.R2", 2)
+	c.Floor("C17.R2", 1)
 	checkFreshResult(c, "C17.R4", c.P.Func("encoding/wkt", "Encode"))
 	c.Floor("C17.R4", 1)
 	c.Floor("C17.R3", 6)
